@@ -58,6 +58,11 @@ def run(tier, seed):
     for pool in (False, True):
         cfg = gen.std_cfg(ns=1, usepool=pool, ports=[3001, 3002] if pool else [])
         corecheck.validate(chk, cfg, gen.STD_TREE, [s for _, s in fam], label="cuts" + ("+pool" if pool else ""))
+    # general sessions of several accounts at once on the same files, interleaved by the seeded scheduler with backend calls held at
+    # random, any of them cut (closed, reset) anywhere
+    ch = [gen.chaos(rng, rng.choice([2, 3])) for _ in range(150 if tier == "quick" else 3000)]
+    corecheck.validate(chk, gen.std_cfg(ns=3), gen.STD_TREE, ch, label="chaos")
+    corecheck.validate(chk, gen.std_cfg(ns=3, usepool=True, ports=[3001, 3002], srvmax=2, backend="path"), gen.STD_TREE, ch, label="chaos:pool:path")
     # a server listening on an IPv6 address (PASV opens a listener, answers 503 and ends the session): everything that mentions PASV
     v6 = [s for _, s in fam if "PASV" in repr(s)]
     corecheck.validate(chk, gen.std_cfg(ns=1, usepool=True, ports=[3001, 3002], v6=True), gen.STD_TREE, v6 if tier != "quick" else v6[::3], label="cuts+v6")
